@@ -277,7 +277,7 @@ def user_function(draw, name):
     ins = ["a", "b", "c"][:nin]
     cfg = X.Cfg(vars_=ins, funcs1=["exp", "sqrt", "sin", "cos"], funcs2=["min", "max"], allow_if=False,
                 elementwise=False, allow_pos=False)
-    kind = draw(st.sampled_from(["plain", "temp", "ifs", "fors"]))
+    kind = draw(st.sampled_from(["plain", "temp", "ifs", "fors", "fors2"]))
     stmts, prot = [], []
     if kind == "plain":
         stmts.append(["assign", "r", draw(X.num_expr(cfg, 2, True))])
@@ -292,6 +292,19 @@ def user_function(draw, name):
         branches = [[draw(X.bool_expr(cfgc, 1)), [["assign", "r", draw(X.num_expr(cfg, 1, True))]]]
                     for _ in range(draw(st.integers(1, 2)))]
         stmts.append(["ifs", branches, [["assign", "r", draw(X.num_expr(cfg, 1, True))]]])
+    elif kind == "fors2":
+        # loop body with two COUPLED assignments (each reads what the other assigns): the order
+        # of assignments across iterations matters
+        prot = ["t"]
+        stmts.append(["assign", "t", draw(X.num_expr(cfg, 1, True))])
+        stmts.append(["assign", "r", draw(X.num_expr(cfg, 1, True))])
+        c1 = draw(st.sampled_from([["real", "0.5"], ["var", ins[0]], ["var", "k"]]))
+        c2 = draw(st.sampled_from([["real", "0.25"], ["var", ins[-1]], ["var", "k"]]))
+        body = [["assign", "t", ["bin", "+", ["var", "t"], ["bin", "*", c1, ["var", "r"]]]],
+                ["assign", "r", ["bin", draw(st.sampled_from(["+", "*"])), ["var", "r"], ["bin", "+", ["bin", "*", c2, ["var", "t"]], ["var", "k"]]]]]
+        if draw(st.booleans()):
+            body.reverse()
+        stmts.append(["fors", "k", 1, draw(st.integers(2, 3)), body])
     else:
         stmts.append(["assign", "r", draw(X.num_expr(cfg, 1, True))])
         cfgk = X.Cfg(vars_=ins + ["r", "k"], funcs1=[], funcs2=["max"], allow_if=False, elementwise=False,
